@@ -2201,6 +2201,7 @@ func c01R20(c *Ctx, r *Report) {
 		return
 	}
 	accepted := map[string]bool{}
+	typeGuards := 0 // guards that skip a parameter because of its type; without any, every parameter gets a slot
 	for _, st := range loop.Body.List {
 		ifs, ok := st.(*ast.IfStmt)
 		if !ok || !thenTerminates(ifs) {
@@ -2212,6 +2213,7 @@ func c01R20(c *Ctx, r *Report) {
 				if u, ok := ast.Unparen(ifs.Cond).(*ast.UnaryExpr); ok && u.Op == token.NOT {
 					if nt := namedOf(info.TypeOf(ta.Type)); nt != nil {
 						accepted[nt.Obj().Name()] = true
+						typeGuards++
 					}
 				}
 			}
@@ -2219,8 +2221,13 @@ func c01R20(c *Ctx, r *Report) {
 		// `if !P(param.Type) { continue }`
 		if u, ok := ast.Unparen(ifs.Cond).(*ast.UnaryExpr); ok && u.Op == token.NOT {
 			if cl, ok := ast.Unparen(u.X).(*ast.CallExpr); ok {
-				if p := c.FnOf(callee(info, cl)); p != nil && p.Decl != nil && p.Decl.Body != nil {
+				if p := c.FnOf(callee(info, cl)); p != nil && p.Decl != nil && p.Decl.Body != nil && p.Obj.Pkg() == fn.Obj.Pkg() {
 					pinfo := p.Info()
+					if sig := p.Obj.Type().(*types.Signature); sig.Params().Len() == 1 {
+						if nt := namedOf(sig.Params().At(0).Type()); nt != nil && nt.Obj().Name() == "SemType" {
+							typeGuards++
+						}
+					}
 					ast.Inspect(p.Decl.Body, func(y ast.Node) bool {
 						cc, ok := y.(*ast.CaseClause)
 						if !ok {
@@ -2251,7 +2258,7 @@ func c01R20(c *Ctx, r *Report) {
 		}
 	}
 	for _, want := range []string{"PrimitiveType", "EnumType", "MapType", "ArrayType"} {
-		r.Check(accepted[want], rule, fn.Name(), "a by-value "+want+" parameter gets its entry slot", c.pos(loop.Pos()),
+		r.Check(accepted[want] || typeGuards == 0, rule, fn.Name(), "a by-value "+want+" parameter gets its entry slot", c.pos(loop.Pos()),
 			"a parameter of this kind has no stack slot until the first `&'p` or assignment is lowered; the loop condition lowered before it keeps reading the incoming value: `fn walk(c: Color) -> i32 { let steps := 0; while c != Color::Blue && steps < 100 { next(&'c); steps = steps + 1; } return steps; }` returned 100 for 2, and `while len(a) < 3 { a = more(a); … }` with a []i32 parameter never saw the new a")
 	}
 }
